@@ -63,4 +63,7 @@ theorem sparse_no_penalty_is_eof_partial (Vk : Matrix (Fin p) (Fin k) 𝕜) (D2 
     Vkᴴ * (G * Vk) = D2 := by
   rw [hG, ← Matrix.mul_assoc, hV, Matrix.one_mul]
 
+/-- source obligation for `pca_all_modes_is_no_pca` on complex data: the PCA maps are `V` in and `Vᴴ` out -/
+theorem src_pca_maps_adjoint : Gen.pcaTransformUsesV = true ∧ Gen.pcaInverseDataUsesConjTranspose = true := by decide
+
 end C10
